@@ -8,6 +8,9 @@ use dasp_sample::{Sample, I24, I48, U24, U48};
 // ------------------------------------------------------------------------------------------
 macro_rules! sample_int {
     ($m:ident, $T:ty, $G:ty, $F:ty, $P:expr, $ref_to:ident, $ref_trunc:ident) => {
+        sample_int!($m, $T, $G, $F, $P, $ref_to, $ref_trunc, kani::any());
+    };
+    ($m:ident, $T:ty, $G:ty, $F:ty, $P:expr, $ref_to:ident, $ref_trunc:ident, $anygain:expr) => {
         pub mod $m {
             use super::*;
             const B: u32 = <$T as IntFmt>::BITS;
@@ -62,7 +65,7 @@ macro_rules! sample_int {
             #[kani::proof]
             pub fn mul_amp_general() {
                 let s: $T = <$T as IntFmt>::any_val();
-                let g: $F = kani::any();
+                let g: $F = $anygain;
                 kani::assume(g.is_finite());
                 // the float companion value is pinned to the reference by `identities` (and C02);
                 // using it here keeps the oracle's product on the same operands as the implementation's
@@ -83,14 +86,14 @@ sample_int!(s_i8, i8, i8, f32, 24, ref_to_f32, ref_trunc_f32);
 sample_int!(s_i16, i16, i16, f32, 24, ref_to_f32, ref_trunc_f32);
 sample_int!(s_i24, I24, I24, f32, 24, ref_to_f32, ref_trunc_f32);
 sample_int!(s_i32, i32, i32, f32, 24, ref_to_f32, ref_trunc_f32);
-sample_int!(s_i48, I48, I48, f64, 53, ref_to_f64, ref_trunc_f64);
+sample_int!(s_i48, I48, I48, f64, 53, ref_to_f64, ref_trunc_f64, kani::any::<f32>() as f64);
 sample_int!(s_i64, i64, i64, f64, 53, ref_to_f64, ref_trunc_f64);
 sample_int!(s_u8, u8, i8, f32, 24, ref_to_f32, ref_trunc_f32);
 sample_int!(s_u16, u16, i16, f32, 24, ref_to_f32, ref_trunc_f32);
 sample_int!(s_u24, U24, i32, f32, 24, ref_to_f32, ref_trunc_f32);
 sample_int!(s_u32, u32, i32, f32, 24, ref_to_f32, ref_trunc_f32);
-sample_int!(s_u48, U48, i64, f64, 53, ref_to_f64, ref_trunc_f64);
-sample_int!(s_u64, u64, i64, f64, 53, ref_to_f64, ref_trunc_f64);
+sample_int!(s_u48, U48, i64, f64, 53, ref_to_f64, ref_trunc_f64, kani::any::<f32>() as f64);
+sample_int!(s_u64, u64, i64, f64, 53, ref_to_f64, ref_trunc_f64, kani::any::<f32>() as f64);
 
 macro_rules! sample_float {
     ($m:ident, $T:ty) => {
